@@ -13,7 +13,7 @@ ALL = ["C%02d" % i for i in range(1, 20)]
 # id -> (technique, level text, level note, design ref)
 TEXT = {
     "C01": ("lock-step differential testing against an independent reference model; encodings enumerated, states by rapid generators",
-            "Every one of the 930 implemented encodings is stepped from rapid-generated pre-states (edge-biased registers, all F values, wrap and aliasing shapes) and compared "
+            "Every one of the 930 encodings the tree implements (the model has six more, the undocumented RETN mirrors, compared only on trees that support them) is stepped from rapid-generated pre-states (edge-biased registers, all F values, wrap and aliasing shapes) and compared "
             "with an independently written Z80 model on the complete architectural state, flags under the mask on which Z80 chips agree, memory image and port output; multi-Step "
             "byte-soup programs (a third with interrupt requests, some raised by device callbacks in mid-Step) and the repository's exerciser images run as 50 000..300 000-Step programs on one CPU value are compared after every Step; "
             "thorough adds native coverage-guided fuzzing of the soup generator (rapid.MakeFuzz). A pass means no counterexample among the generated cases (10^7..10^9 Steps per run), not absence.",
@@ -86,7 +86,7 @@ TEXT = {
             "Bounded delay uses a wall-clock bound four orders of magnitude above normal behaviour; data races are only seen in executed schedules.",
             "DESIGN.md section 5 C13"),
     "C14": ("enumeration of all 256 R values x I values per encoding plus rapid-drawn states against the fetch-count rule",
-            "All 930 encodings x all 256 starting R x several I values are stepped and R/I compared with the fetch-count rule (1 / 2 / DDCB 2-or-3, bit 7 kept, LD R,A / LD I,A only writers); "
+            "All 930 implemented encodings x all 256 starting R x several I values are stepped and R/I compared with the fetch-count rule (1 / 2 / DDCB 2-or-3, bit 7 kept, LD R,A / LD I,A only writers); "
             "LD A,R / LD A,I over all R x IFF2 x all F; multi-Step programs with block repeats and HALT; short memories; the exerciser images as long programs.",
             "Trusted: the prefix-class table of the reference model.",
             "DESIGN.md section 5 C14"),
